@@ -107,6 +107,10 @@ func newEnv() (*env, error) {
 		return nil, err
 	}
 	e := &env{ca: ca, statusHis: map[int]int{}, sshConfigBase: map[string]string{}}
+	// the request logger wraps every endpoint when the configuration has a "logger" section; with
+	// STEP_LOGGER_LOG_REAL_IP it parses the proxy headers of every request
+	os.Setenv("STEP_LOGGER_LOG_REAL_IP", "true")
+	fixture.WithLogger = true
 	if e.srv, err = ca.NewServer(); err != nil {
 		return nil, err
 	}
@@ -498,6 +502,9 @@ func genNames() []string {
 	return ns
 }
 
+var proxyVals = []string{"", " ", ",", ", 10.0.0.7", ",,", "[", "]", "[]", "[::1]", "[::1]:80", "10.0.0.1, [", "a,b", "::", "1.2.3.4:5", "\x00", "\r\n x", strings.Repeat("9", 5000),
+	strings.Repeat(",", 3000), "fe80::1%eth0", "[fe80::1%25eth0]", "\u00e9", "10.0.0.1 ", " 10.0.0.1", "0x7f.1", "256.256.256.256"}
+
 func runOne(e *env, o *c.Out, name string, seed uint64) {
 	r := c.NewRng(seed)
 	var req *http.Request
@@ -512,6 +519,15 @@ func runOne(e *env, o *c.Out, name string, seed uint64) {
 	}()
 	if req == nil {
 		return
+	}
+	// proxy / logging headers, read by the logger around every endpoint
+	if r.Chance(1, 3) {
+		for _, h := range []string{"X-Forwarded-For", "X-Real-Ip", "True-Client-Ip", "Referer", "User-Agent", "X-Request-Id", "X-Smallstep-Id"} {
+			if r.Chance(1, 3) {
+				req.Header.Set(h, c.Pick(r, proxyVals))
+				mut += "+" + h
+			}
+		}
 	}
 	res := e.srv.Serve(req, 5*time.Second)
 	out := "ok"
